@@ -258,7 +258,7 @@ func (env *SpecEnv) index(x specVal, i *Term) specVal {
 	case *types.Slice:
 		name, s := env.fx.elemHeapName(u.Elem())
 		h := env.fx.heapGet(env.st, name, s)
-		return specVal{Select(Select(h, SlcBase(x.t)), Add(SlcOff(x.t), i)), u.Elem()}
+		return specVal{env.fx.elemAt(h, x.t, i), u.Elem()}
 	case *types.Array:
 		return specVal{Select(x.t, i), u.Elem()}
 	case *types.Map:
@@ -568,11 +568,33 @@ func (env *SpecEnv) call(e *SExpr) specVal {
 	case "typeis":
 		// typeis(x, T): dynamic type of interface value x is T
 		x := env.expr(e.Args[0])
-		t, err := fx.e.resolveType(env.pkg, strings.TrimSpace(e.Args[1].String()))
+		tn := strings.TrimSpace(e.Args[1].String())
+		if e.Args[1].Kind == "string" {
+			tn = e.Args[1].Str
+		}
+		t, err := fx.e.resolveType(env.pkg, tn)
 		if err != nil {
 			env.fail("%v", err)
 		}
 		return specVal{Eq(IfcTag(x.t), IntLit(int64(fx.e.typeTag(t)))), tBool}
+	case "cast":
+		// cast(x, "*T"): the payload of interface value x viewed as a *T (meaningful when typeis(x, "*T"))
+		x := env.expr(e.Args[0])
+		t, err := fx.e.resolveType(env.pkg, e.Args[1].Str)
+		if err != nil {
+			env.fail("%v", err)
+		}
+		if x.t.S != SIfc {
+			return specVal{x.t, t}
+		}
+		return specVal{fx.unboxIface(x.t, t), t}
+	case "boxed":
+		// boxed(p): the interface value holding p (dynamic type = static type of p)
+		x := env.expr(e.Args[0])
+		if x.typ == nil {
+			env.fail("boxed(nil)")
+		}
+		return specVal{fx.makeIface(x.t, x.typ), types.NewInterfaceType(nil, nil)}
 	case "ptrof":
 		x := env.expr(e.Args[0])
 		return specVal{IfcPtr(x.t), tInt}
